@@ -19,6 +19,7 @@ def register(reg):
                 ('nomask', None, [], '')):
             reg.add(Contract(
                 target=D + '_detect_sources', props=['C04'], block=('segment_img', 'segment_img', 1),
+                block_like='data > threshold',
                 tag=f'candidates-{tag}-{mtag}',
                 params={**base, 'threshold': tspec, 'inverse_mask': mspec},
                 requires=treq + mreq,
